@@ -40,7 +40,9 @@ def cases(tier, seed):
     for name, (_f, methods, _p) in _models().items():
         for meth in methods + ["callable", None]:
             yield {"kind": "learner", "model": name, "method": meth, "L": L}
-    for combo in (["linreg", "dtr"], ["logreg", "dtc"], ["kmeans", "scaler", "linreg"], ["linreg"] * 11):
+    # member order matters for the dtype of the concatenation: integer-valued outputs (class labels, cluster ids) first, then floats
+    for combo in (["linreg", "dtr"], ["logreg", "dtc"], ["kmeans", "scaler", "linreg"], ["linreg"] * 11,
+                  ["dtc", "linreg"], ["dtc", "scaler", "linreg"], ["kmeans", "linreg"], ["linreg", "dtc"]):
         for meth in ("predict", "predict_proba"):
             if meth == "predict_proba" and combo[0] != "logreg":
                 continue
